@@ -135,6 +135,9 @@ func genC18(t *rapid.T, tier string) (*World, any) {
 		case 1:
 			content = strings.ReplaceAll(content, "\n", "\r\n")
 		}
+		if chance(t, 15, "bom") {
+			content = "\ufeff" + content // whatever a byte order mark means to the compiler, it means the same on both paths
+		}
 		w.Put(p.File, content)
 	case "root":
 		p.Cmd = pick(t, []string{"generate", "update", "compare", "format"}, "cmd")
@@ -143,6 +146,9 @@ func genC18(t *rapid.T, tier string) (*World, any) {
 		// nested roots and a sibling root
 		putRoot(w, "crs/util/a/nested", "nested")
 		putRoot(w, "other", "other")
+		// roots whose path merely contains the text "regex-assembly"
+		putRoot(w, "crs/regex-assembly-plugins/inner", "innerplug")
+		putRoot(w, "crs/regex-assembly/vendored", "vendored")
 		w.Dirs = append(w.Dirs, "empty/x/y", "crs/util/a/nested/deep/er")
 		type place struct{ cwd, dir, root string }
 		places := []place{
@@ -153,6 +159,9 @@ func genC18(t *rapid.T, tier string) (*World, any) {
 			{"", "empty/x/y", ""}, {"", "empty", ""}, {"empty", "..", ""},
 			{"crs/rules", "", "crs/rules"}, {"crs/util/a/b", "", "crs/util/a/b"}, // without -d the working directory itself is the root
 			{"", "crs/util/a/nested/regex-assembly", "crs/util/a/nested"},
+			{"", "crs/regex-assembly-plugins/inner", "crs/regex-assembly-plugins/inner"}, {"", "crs/regex-assembly-plugins/inner/rules", "crs/regex-assembly-plugins/inner"},
+			{"", "crs/regex-assembly-plugins", "crs"}, {"", "crs/regex-assembly/vendored", "crs/regex-assembly/vendored"}, {"", "crs/regex-assembly/vendored/rules", "crs/regex-assembly/vendored"},
+			{"crs/regex-assembly/vendored/rules", "..", "crs/regex-assembly/vendored"},
 			{"", "crs/", "crs"}, {"", "crs/rules/", "crs"}, {"", "crs/./rules/../util", "crs"}, {"crs", "rules/REQUEST-942-APPLICATION-ATTACK-SQLI.conf", "crs"},
 			{"", "crs/regex-assembly/942110.ra", "crs"}, {"", "crs/util/a/nested/", "crs/util/a/nested"},
 		}
